@@ -548,6 +548,12 @@ def rule_cloner(ctx, R):
         barr = [receiver_array_any(e[3][0]) for e in bor]
         R.check(sorted(barr) == sorted(S.columns) and all(rp.effects.index(e) < first_alloc for e in bor), "C11-R2", key + "|borrows-first", "every column borrowed shared before the first allocation",
                 "clone borrows %s; expected a shared borrow of every column %s before the first allocation" % (barr, S.columns), where_of(f), fn=f.key)
+        # C04: the documented "already borrowed" panic of clone must come before anything is cloned, or the values cloned so
+        # far are abandoned in raw buffers that nothing drops (the mode of the guards is C11's matter, their position is C04's)
+        bor_any = [e for e in rp.effects if e[0] == "call" and (cname(e[2]).endswith("RefCell::borrow") or cname(e[2]).endswith("RefCell::borrow_mut"))]
+        barr_any = [receiver_array_any(e[3][0]) for e in bor_any]
+        R.check(sorted(set(barr_any)) == sorted(S.columns) and all(rp.effects.index(e) < first_alloc for e in bor_any), "C04-R8", key + "|guards-before-cloning", "every column guard is taken before the first allocation",
+                "clone takes the guards of %s at positions after its first allocation / clone; a borrow panic there abandons the values cloned so far" % barr_any, where_of(f), fn=f.key)
         bm = [e for p in ps for e in p.effects if e[0] == "call" and (cname(e[2]).endswith("RefCell::borrow_mut") or cname(e[2]).endswith("RefCell::get_mut") or cname(e[2]).endswith("RefCell::as_ptr"))]
         R.check(not bm, "C11-R2", key + "|no-exclusive", "clone never takes a column exclusively or unguarded", "clone calls %s on a column" % [cname(e[2]) for e in bm], where_of(f), fn=f.key)
         # loops
